@@ -153,10 +153,11 @@ def build_fn(src_root, d, contract, hint_specs, tailproof, vacuity):
         # rule 15: a local identifier that is a reserved word of Verus (`int`) is renamed, whole-word, everywhere in the body
         a, b = d['rename'].split('=>')
         n_occ = len(re.findall(r'\b' + re.escape(a) + r'\b', f['body']))
-        if n_occ == 0 or re.search(r'\b' + re.escape(b) + r'\b', f['body']):
-            raise GenError(f"anchor lost: identifier `{a}` not found (or `{b}` already used) in {d['fn']}")
-        f = dict(f, body=re.sub(r'\b' + re.escape(a) + r'\b', b, f['body']))
-        rename_note = f'local identifier `{a}` (reserved in Verus) renamed to `{b}` ({n_occ} occurrences)'
+        if n_occ and re.search(r'\b' + re.escape(b) + r'\b', f['body']):
+            raise GenError(f"anchor lost: cannot rename `{a}`: `{b}` is already used in {d['fn']}")
+        if n_occ:    # an edit that no longer uses the reserved word needs no renaming
+            f = dict(f, body=re.sub(r'\b' + re.escape(a) + r'\b', b, f['body']))
+            rename_note = f'local identifier `{a}` (reserved in Verus) renamed to `{b}` ({n_occ} occurrences)'
     sig, has_ret = name_return(f['sig'], ret)
     if d.get('closure'):
         sig, has_ret = f['sig'], True
